@@ -31,47 +31,58 @@ theorem extend_least {b o r : BoxCorners}
   simp only [boxExtend]
   omega
 
+theorem boxAdd_minLat (b : BoxCorners) (c : Coord) : (boxAdd b c).minLat = min b.minLat c.lat := rfl
+theorem boxAdd_minLon (b : BoxCorners) (c : Coord) : (boxAdd b c).minLon = min b.minLon c.lon := rfl
+theorem boxAdd_maxLat (b : BoxCorners) (c : Coord) : (boxAdd b c).maxLat = max b.maxLat c.lat := rfl
+theorem boxAdd_maxLon (b : BoxCorners) (c : Coord) : (boxAdd b c).maxLon = max b.maxLon c.lon := rfl
+
 /-- fold invariant of `from_coordinates` started from an arbitrary box -/
 theorem foldl_boxAdd_spec (cs : List Coord) (b : BoxCorners) :
-    let r := cs.foldl boxAdd b
-    (r.minLat ≤ b.minLat ∧ r.minLon ≤ b.minLon ∧ b.maxLat ≤ r.maxLat ∧ b.maxLon ≤ r.maxLon) ∧
-    (∀ c ∈ cs, Between r c) ∧
-    (r.minLat = b.minLat ∨ ∃ c ∈ cs, c.lat = r.minLat) ∧ (r.minLon = b.minLon ∨ ∃ c ∈ cs, c.lon = r.minLon) ∧
-    (r.maxLat = b.maxLat ∨ ∃ c ∈ cs, c.lat = r.maxLat) ∧ (r.maxLon = b.maxLon ∨ ∃ c ∈ cs, c.lon = r.maxLon) := by
+    ((cs.foldl boxAdd b).minLat ≤ b.minLat ∧ (cs.foldl boxAdd b).minLon ≤ b.minLon ∧
+      b.maxLat ≤ (cs.foldl boxAdd b).maxLat ∧ b.maxLon ≤ (cs.foldl boxAdd b).maxLon) ∧
+    (∀ c ∈ cs, Between (cs.foldl boxAdd b) c) ∧
+    ((cs.foldl boxAdd b).minLat = b.minLat ∨ ∃ c ∈ cs, c.lat = (cs.foldl boxAdd b).minLat) ∧
+    ((cs.foldl boxAdd b).minLon = b.minLon ∨ ∃ c ∈ cs, c.lon = (cs.foldl boxAdd b).minLon) ∧
+    ((cs.foldl boxAdd b).maxLat = b.maxLat ∨ ∃ c ∈ cs, c.lat = (cs.foldl boxAdd b).maxLat) ∧
+    ((cs.foldl boxAdd b).maxLon = b.maxLon ∨ ∃ c ∈ cs, c.lon = (cs.foldl boxAdd b).maxLon) := by
   induction cs generalizing b with
   | nil => simp
   | cons c cs ih =>
-    intro r
-    have ih' := ih (boxAdd b c)
-    simp only [List.foldl_cons] at r
-    obtain ⟨hmono, hall, h1, h2, h3, h4⟩ := ih'
-    have hr : r = cs.foldl boxAdd (boxAdd b c) := rfl
-    rw [← hr] at hmono hall h1 h2 h3 h4
-    simp only [boxAdd] at hmono h1 h2 h3 h4
-    refine ⟨by omega, ?_, ?_, ?_, ?_, ?_⟩
+    obtain ⟨hmono, hall, h1, h2, h3, h4⟩ := ih (boxAdd b c)
+    simp only [List.foldl_cons]
+    generalize cs.foldl boxAdd (boxAdd b c) = r at *
+    rw [boxAdd_minLat, boxAdd_minLon, boxAdd_maxLat, boxAdd_maxLon] at hmono
+    rw [boxAdd_minLat] at h1
+    rw [boxAdd_minLon] at h2
+    rw [boxAdd_maxLat] at h3
+    rw [boxAdd_maxLon] at h4
+    have hm : (r.minLat ≤ b.minLat ∧ r.minLon ≤ b.minLon ∧ b.maxLat ≤ r.maxLat ∧ b.maxLon ≤ r.maxLon) ∧
+        (r.minLat ≤ c.lat ∧ c.lat ≤ r.maxLat ∧ r.minLon ≤ c.lon ∧ c.lon ≤ r.maxLon) := by
+      clear h1 h2 h3 h4 hall ih; omega
+    refine ⟨hm.1, ?_, ?_, ?_, ?_, ?_⟩
     · intro c' hc'
       rcases List.mem_cons.mp hc' with rfl | hc'
-      · simp only [Between]; omega
+      · exact hm.2
       · exact hall c' hc'
     · rcases h1 with h1 | ⟨c', hc', e⟩
       · by_cases hle : b.minLat ≤ c.lat
-        · left; omega
-        · right; exact ⟨c, List.mem_cons_self, by omega⟩
+        · left; clear h2 h3 h4 hall ih; omega
+        · right; exact ⟨c, List.mem_cons_self, by clear h2 h3 h4 hall ih; omega⟩
       · right; exact ⟨c', List.mem_cons_of_mem _ hc', e⟩
     · rcases h2 with h2 | ⟨c', hc', e⟩
       · by_cases hle : b.minLon ≤ c.lon
-        · left; omega
-        · right; exact ⟨c, List.mem_cons_self, by omega⟩
+        · left; clear h1 h3 h4 hall ih; omega
+        · right; exact ⟨c, List.mem_cons_self, by clear h1 h3 h4 hall ih; omega⟩
       · right; exact ⟨c', List.mem_cons_of_mem _ hc', e⟩
     · rcases h3 with h3 | ⟨c', hc', e⟩
       · by_cases hle : c.lat ≤ b.maxLat
-        · left; omega
-        · right; exact ⟨c, List.mem_cons_self, by omega⟩
+        · left; clear h1 h2 h4 hall ih; omega
+        · right; exact ⟨c, List.mem_cons_self, by clear h1 h2 h4 hall ih; omega⟩
       · right; exact ⟨c', List.mem_cons_of_mem _ hc', e⟩
     · rcases h4 with h4 | ⟨c', hc', e⟩
       · by_cases hle : c.lon ≤ b.maxLon
-        · left; omega
-        · right; exact ⟨c, List.mem_cons_self, by omega⟩
+        · left; clear h1 h2 h3 hall ih; omega
+        · right; exact ⟨c, List.mem_cons_self, by clear h1 h2 h3 hall ih; omega⟩
       · right; exact ⟨c', List.mem_cons_of_mem _ hc', e⟩
 
 theorem boxAdd_invalid {c : Coord} (hc : CoordI32 c) : boxAdd boxInvalid c = ⟨c.lat, c.lon, c.lat, c.lon⟩ := by
